@@ -1,16 +1,20 @@
 #!/usr/bin/env python3
-"""Refresh the `detection` block of every /verif/seeded/<ID>-<k>/meta.json from a full run of
-`dev/run_seeded.py --checks=all` (one JSON line per (change, check))."""
+"""Refresh the `detection` block of every /verif/seeded/<ID>-<k>/meta.json from full runs of
+`dev/run_seeded.py --checks=all` / `dev/run_mutants.py --checks=...` (one JSON line per (change, check); several files may be
+given, later ones override earlier ones)."""
 import json, os, sys, collections
-f = sys.argv[1]
 M = collections.defaultdict(dict)
-for l in open(f):
-    try:
-        r = json.loads(l)
-    except Exception:
-        continue
-    if len(r) >= 5 and r[1].startswith("C"):
-        M[r[0]][r[1]] = (r[2], r[4] if isinstance(r[4], list) else [])
+for f in sys.argv[1:]:  # later files override earlier ones
+    for l in open(f):
+        try:
+            r = json.loads(l)
+        except Exception:
+            continue
+        if len(r) >= 5 and r[1].startswith("C"):
+            rep = r[4] if isinstance(r[4], list) else []
+            if any(".internal]" in x for x in rep) or r[2].startswith("ERROR"):
+                continue  # an infrastructure failure of that run (cache race), not a verdict
+            M[r[0]][r[1]] = (r[2], rep)
 head = os.popen("git -C /repo rev-parse --short HEAD").read().strip()
 n = 0
 for mid, row in sorted(M.items()):
